@@ -58,8 +58,12 @@ pub fn extract_field_content(input: &str, tag: &str) -> Option<(String, usize)> 
     // Calculate consumed characters BEFORE trimming (to include newlines)
     let raw_content_len = raw_content.len();
 
-    // Clean up the content (remove trailing newlines)
-    let content = raw_content.trim_end_matches('\n').trim_end_matches('\r');
+    // Clean up the content (remove trailing newlines) and use LF as the only line separator
+    // inside a multi-line field, whatever the message was written with
+    let content = raw_content
+        .trim_end_matches('\n')
+        .trim_end_matches('\r')
+        .replace("\r\n", "\n");
 
     // Calculate consumed characters including the newline after the content if present
     let consumed = field_start
@@ -67,7 +71,7 @@ pub fn extract_field_content(input: &str, tag: &str) -> Option<(String, usize)> 
         + raw_content_len
         + if has_trailing_newline { 1 } else { 0 };
 
-    Some((content.to_string(), consumed))
+    Some((content, consumed))
 }
 
 /// Find the boundary of the next field
